@@ -53,4 +53,15 @@ FieldStart(k) == IF k = 1 THEN 0 ELSE LET F[j \in 1..k] == IF j = 1 THEN 0 ELSE 
 StageAligned == \A k \in 1..Len(consumed) : consumed[k].from = FieldStart(k) /\ consumed[k].to = FieldStart(k) + Fields[k]
 \* at the end the surplus handed to the message layer is exactly what follows the last field
 SurplusExact == stage > NStages => lo = FieldStart(NStages) + Fields[NStages] /\ hi <= delivered /\ hi >= lo
-=============================================================================
+=========================================================================
+-----------------------------------------------------------------------------
+\* Which torrent a handshake is for.  An encrypted exchange is keyed with the
+\* info-hash of one torrent (SKEY); the BitTorrent handshake that follows names
+\* a torrent as well.  A server serving the set `served` reports success only
+\* if both name the same served torrent - otherwise a peer that knows torrent
+\* A could get a connection attributed to torrent B.
+ServerAccepts(skey, named, served) == named \in served /\ skey \in served /\ skey = named
+\* the cases the binding runs (torrents A and B served, C not)
+AgreeCases == {[skey |-> k, named |-> n] : k \in {"A", "B"}, n \in {"A", "B", "C"}}
+AgreeSound == \A c \in AgreeCases : ServerAccepts(c.skey, c.named, {"A", "B"}) <=> (c.skey = c.named)
+====
